@@ -264,12 +264,31 @@ and a rejected add (a parameter the optimizer cannot configure) leaves the
 registered set unchanged. -/
 theorem Reg.optimizer_add_param {valid : PId → Bool} {o o' : Opt} (p : PId) (hn : o.params.Nodup) :
     (o.addParam valid p = .ok o' → o'.params.Nodup ∧ ∀ q, q ∈ o'.params ↔ q ∈ o.params ∨ q = p) ∧
-    (o.addParam valid p = .error o' → o' = o) ∧
+    (o.addParam valid p = .error o' → o'.params = o.params ∧ o'.needsStats = o.needsStats) ∧
     (p ∈ o.params → o.addParam valid p = .ok o) ∧
     o.addParam valid p ≠ .crash := by
-  refine ⟨fun h => ?_, Opt.addParam_error, fun h => by simp [Opt.addParam, h], Opt.addParam_ne_crash valid o p⟩
-  obtain ⟨a, _, b⟩ := Opt.addParam_ok hn h
-  exact ⟨a, b⟩
+  refine ⟨fun h => ?_, fun h => ?_, fun h => by simp [Opt.addParam, h], Opt.addParam_ne_crash valid o p⟩
+  · obtain ⟨a, _, b⟩ := Opt.addParam_ok hn h
+    exact ⟨a, b⟩
+  · obtain ⟨a, b, _⟩ := Opt.addParam_error h
+    exact ⟨a, b⟩
+
+/-- A fresh optimizer meets `Opt.wf`, and every `add` — of a parameter or of a
+model, accepted or rejected, in any order and with any overlap between the
+models and parameters added — keeps it: no parameter is registered twice and
+`configure_parameter` has run exactly once for every registered parameter,
+also when the same Parameter object is reachable along several paths (a diamond
+through a shared submodel, or one Parameter added to two sibling models). -/
+theorem Reg.optimizer_configures_once (r : Reg) (needsStats : Bool) {o o' : Opt} :
+    ({ needsStats := needsStats } : Opt).wf r.valid ∧
+    (o.wf r.valid → ∀ p, (o.addParam r.valid p = .ok o' ∨ o.addParam r.valid p = .error o') → o'.wf r.valid) ∧
+    (o.wf r.valid → ∀ m, (o.addModel r m = .ok o' ∨ o.addModel r m = .error o') → o'.wf r.valid) := by
+  refine ⟨⟨by simp, by simp, by simp⟩, fun hw p h => Opt.addParam_wf hw h, fun hw m h => ?_⟩
+  unfold Opt.addModel at h
+  split at h
+  · exact Opt.addList_wf hw h
+  · simp only [reduceCtorEq, Out.error.injEq, false_or] at h; subst h; exact hw
+  · simp at h
 
 /-- `Optimizer::add(model)` never crashes on a registry built through the API,
 returns normally when the optimizer keeps no statistics or every reachable
@@ -299,10 +318,22 @@ theorem Reg.optimizer_add_model_outcome {r : Reg} (hi : r.inv) {m : MId} (hm : m
 
 -- the diamond's parameter 0 is reachable along two paths and is registered once;
 -- parameter 1 was registered before and is not registered again
-example : (Opt.addModel diamond { needsStats := true, params := [1] } 0) = .ok { needsStats := true, params := [1, 0] } := by
+example : (Opt.addModel diamond { needsStats := true, params := [1], configs := [1] } 0) =
+    .ok { needsStats := true, params := [1, 0], configs := [1, 0] } := by
   decide
 -- an invalid parameter (2) under an optimizer that keeps statistics: rejected, set unchanged
-example : (Opt.addParam diamond.valid { needsStats := true, params := [1] } 2) = .error { needsStats := true, params := [1] } := by
+example : (Opt.addParam diamond.valid { needsStats := true, params := [1], configs := [1] } 2) =
+    .error { needsStats := true, params := [1], configs := [1, 2] } := by
   decide
+-- parameter 0 sits below both siblings 1 and 2: adding both models, then the root, then the parameter configures it once
+example : (match Opt.addModel diamond { needsStats := true } 1 with
+    | .ok o1 => match Opt.addModel diamond o1 2 with
+      | .ok o2 => match Opt.addModel diamond o2 0 with
+        | .ok o3 => match Opt.addParam diamond.valid o3 0 with
+          | .ok o4 => decide (o4.configCount 0 = 1 ∧ o4.configCount 1 = 1 ∧ o4.params = [0, 1])
+          | _ => false
+        | _ => false
+      | _ => false
+    | _ => false) = true := by decide
 
 end Primitiv.Registry
